@@ -26,12 +26,13 @@ class Clause:
 
 
 class Raises:
-    def __init__(self, exc, label, when, role="prop", props=None):
+    def __init__(self, exc, label, when, role="prop", props=None, pre_state=False):
         self.exc = exc        # exception class *name*
         self.label = label
         self.when = when      # fn(c, a) -> Bool : raised  <=>  when
         self.role = role
         self.props = props
+        self.pre_state = pre_state   # evaluate `when` on the arguments before the call (they may be mutated)
 
 
 class LoopSpec:
@@ -146,16 +147,10 @@ class C:
         k = bound(name + "!e")
         with _Depth():
             b = body(k)
-        f = sym.uf("tr", sym.I, sym.B)
-        pats = [f(k.t)]
-        auto = sym.auto_patterns(_term(b), [k.t]) if not isinstance(b, bool) else None
-        if auto:
-            pats += auto[:4]
+        if isinstance(b, bool) and not b:
+            return False
         body = z3.And(sym.tr(k), 0 <= k.t, k.t < _term(n), _term(b))
-        try:
-            return SB(z3.Exists([k.t], body, patterns=pats))
-        except z3.Z3Exception:
-            return SB(z3.Exists([k.t], body))
+        return SB(_q([k.t], body, _term(b), exists=True))
 
     def quiet(self):
         return _Quiet()
@@ -181,9 +176,12 @@ class C:
             return SB(z3.ForAll([k.t], f, patterns=[sym.tr(k)]))
 
 
-def _q(vars_, formula, body):
-    """quantifier with two alternative instantiation patterns: the trigger predicates tr(v) of all bound variables,
-    and the array/list reads of the body that take the bound variables directly"""
+def _q(vars_, formula, body, exists=False):
+    """quantifier with alternative instantiation patterns: the trigger predicates tr(v) of all bound variables, and
+    the array/list reads of the body that take the bound variables directly.  A single bound variable that is only
+    read shifted (a(k-1)) is additionally offered re-parametrised (k' = k-1), as a second quantifier of the same
+    meaning -- so that an existing read a(t) can serve as witness / instance."""
+    Q = z3.Exists if exists else z3.ForAll
     f = sym.uf("tr", sym.I, sym.B)
     trp = [f(v) for v in vars_]
     pats = [z3.MultiPattern(*trp) if len(trp) > 1 else trp[0]]
@@ -192,9 +190,24 @@ def _q(vars_, formula, body):
         for p in auto[:4]:
             pats.append(p)
     try:
-        return z3.ForAll(vars_, formula, patterns=pats)
+        main = Q(vars_, formula, patterns=pats)
     except z3.Z3Exception:
-        return z3.ForAll(vars_, formula, patterns=pats[:1])
+        main = Q(vars_, formula, patterns=pats[:1])
+    if not auto and len(vars_) == 1:
+        v = vars_[0]
+        d = sym._find_shift(body, v)
+        if d is not None:
+            v2 = z3.Int(str(v) + "_sh")
+            formula2 = z3.simplify(z3.substitute(formula, (v, v2 - d)))
+            body2 = z3.simplify(z3.substitute(body, (v, v2 - d)))
+            auto2 = sym.auto_patterns(body2, [v2])
+            if auto2:
+                try:
+                    alt = Q([v2], formula2, patterns=auto2[:4])
+                    return z3.Or(main, alt) if exists else z3.And(main, alt)
+                except z3.Z3Exception:
+                    pass
+    return main
 
 
 class _Quiet:
